@@ -1,1 +1,367 @@
 //! Verification facade: `plan` (feature `verif`).
+//!
+//! Applies every transformation rule of the Cascades optimizer (sql/planner/rules.rs) to the root of a logical
+//! plan handed in as a plain tree over synthetic table schemas, and hands the alternatives back as plain trees
+//! (children = the first logical expression of their memo group).  No statement is executed; nothing here is
+//! used by the database itself.
+
+use std::collections::HashMap;
+
+use crate::{
+    DataType,
+    schema::{
+        Schema,
+        base::{Column, IndexHandle},
+    },
+    sql::{
+        binder::bounds::{Binding, BoundExpression},
+        parser::ast::{BinaryOperator, JoinType, UnaryOperator},
+        planner::{
+            GroupId, Memo,
+            logical::{
+                FilterOp, IndexRangeBound, JoinOp, LogicalExpr, LogicalOperator, ProjectExpr, ProjectOp,
+                TableScanOp,
+            },
+            prop::LogicalProperties,
+            rules::transformation_rules,
+        },
+    },
+    types::{Blob, DataTypeKind, Int32, Int64, ObjectId, bool::Bool},
+};
+
+#[derive(Clone, Copy, Debug, PartialEq, Eq)]
+pub enum VTy {
+    Int,
+    BigInt,
+    Bool,
+    Text,
+}
+
+#[derive(Clone, Debug, PartialEq)]
+pub enum VLit {
+    Null,
+    Int(i64),
+    Bool(bool),
+    Text(Vec<u8>),
+}
+
+#[derive(Clone, Debug, PartialEq)]
+pub enum VExpr {
+    Lit(VLit),
+    Col(usize),
+    Not(Box<VExpr>),
+    Neg(Box<VExpr>),
+    Pos(Box<VExpr>),
+    And(Box<VExpr>, Box<VExpr>),
+    Or(Box<VExpr>, Box<VExpr>),
+    /// eq ne lt le gt ge
+    Cmp(&'static str, Box<VExpr>, Box<VExpr>),
+    /// add sub mul div mod
+    Arith(&'static str, Box<VExpr>, Box<VExpr>),
+    Like(bool, Box<VExpr>, Box<VExpr>),
+    IsNull(bool, Box<VExpr>),
+    Between(bool, Box<VExpr>, Box<VExpr>, Box<VExpr>),
+    InList(bool, Box<VExpr>, Vec<VExpr>),
+    /// an expression form the facade does not translate back
+    Other(String),
+}
+
+#[derive(Clone, Debug, PartialEq)]
+pub struct VBound {
+    pub pos: usize,
+    pub value: VLit,
+    pub inclusive: bool,
+}
+
+#[derive(Clone, Debug, PartialEq)]
+pub enum VPlan {
+    Scan(usize),
+    IndexScan { table: usize, index: usize, lo: Vec<VBound>, hi: Vec<VBound>, resid: Option<VExpr> },
+    Filter(VExpr, Box<VPlan>),
+    Project(Vec<VExpr>, Box<VPlan>),
+    /// inner left right full cross
+    Join(&'static str, Option<VExpr>, Box<VPlan>, Box<VPlan>),
+    Other(String),
+}
+
+/// a synthetic table: column types with their NOT NULL flags, unique indexes as column lists
+#[derive(Clone, Debug)]
+pub struct VTable {
+    pub cols: Vec<(VTy, bool)>,
+    pub indexes: Vec<Vec<usize>>,
+}
+
+fn kind(t: VTy) -> DataTypeKind {
+    match t {
+        VTy::Int => DataTypeKind::Int,
+        VTy::BigInt => DataTypeKind::BigInt,
+        VTy::Bool => DataTypeKind::Bool,
+        VTy::Text => DataTypeKind::Blob,
+    }
+}
+
+const INDEX_ID_BASE: ObjectId = 1000;
+
+fn index_id(table: usize, k: usize) -> ObjectId {
+    INDEX_ID_BASE + (table as ObjectId) * 16 + k as ObjectId
+}
+
+fn table_schema(t: usize, tb: &VTable) -> Schema {
+    let cols: Vec<Column> = tb
+        .cols
+        .iter()
+        .enumerate()
+        .map(|(i, (ty, nn))| {
+            let c = Column::new_with_defaults(kind(*ty), &format!("c{}", i));
+            if *nn { c.with_non_null_constraint() } else { c }
+        })
+        .collect();
+    let mut s = Schema::new_table_with_num_keys(cols, 0);
+    if s.table_indexes.is_none() {
+        s.table_indexes = Some(HashMap::new());
+    }
+    for (k, ix) in tb.indexes.iter().enumerate() {
+        let _ = s.add_index(IndexHandle::new(index_id(t, k), ix.clone()));
+    }
+    s
+}
+
+fn lit(v: &VLit) -> DataType {
+    match v {
+        VLit::Null => DataType::Null,
+        VLit::Int(i) => {
+            if *i >= i32::MIN as i64 && *i <= i32::MAX as i64 {
+                DataType::Int(Int32(*i as i32))
+            } else {
+                DataType::BigInt(Int64(*i))
+            }
+        }
+        VLit::Bool(b) => DataType::Bool(Bool(*b)),
+        VLit::Text(s) => DataType::Blob(Blob::from(s.as_slice())),
+    }
+}
+
+fn unlit(v: &DataType) -> VLit {
+    match v {
+        DataType::Null => VLit::Null,
+        DataType::Int(i) => VLit::Int(i.0 as i64),
+        DataType::BigInt(i) => VLit::Int(i.0),
+        DataType::Bool(b) => VLit::Bool(b.0),
+        DataType::Blob(b) => VLit::Text(b.data().map(|d| d.to_vec()).unwrap_or_default()),
+        _ => VLit::Null,
+    }
+}
+
+fn bexpr(e: &VExpr, schema: &Schema) -> BoundExpression {
+    let b = |x: &VExpr| Box::new(bexpr(x, schema));
+    let bin = |op: BinaryOperator, l: &VExpr, r: &VExpr, ty: DataTypeKind| BoundExpression::BinaryOp {
+        left: b(l),
+        op,
+        right: b(r),
+        result_type: ty,
+    };
+    match e {
+        VExpr::Lit(v) => BoundExpression::Literal { value: lit(v) },
+        VExpr::Col(i) => BoundExpression::ColumnBinding(Binding {
+            table_id: None,
+            scope_index: 0,
+            column_idx: *i,
+            data_type: schema.column(*i).map(|c| c.datatype()).unwrap_or(DataTypeKind::Null),
+        }),
+        VExpr::Not(a) => BoundExpression::UnaryOp { op: UnaryOperator::Not, expr: b(a), result_type: DataTypeKind::Bool },
+        VExpr::Neg(a) => BoundExpression::UnaryOp { op: UnaryOperator::Minus, expr: b(a), result_type: DataTypeKind::BigInt },
+        VExpr::Pos(a) => BoundExpression::UnaryOp { op: UnaryOperator::Plus, expr: b(a), result_type: DataTypeKind::BigInt },
+        VExpr::And(l, r) => bin(BinaryOperator::And, l, r, DataTypeKind::Bool),
+        VExpr::Or(l, r) => bin(BinaryOperator::Or, l, r, DataTypeKind::Bool),
+        VExpr::Cmp(op, l, r) => {
+            let o = match *op {
+                "eq" => BinaryOperator::Eq,
+                "ne" => BinaryOperator::Neq,
+                "lt" => BinaryOperator::Lt,
+                "le" => BinaryOperator::Le,
+                "gt" => BinaryOperator::Gt,
+                _ => BinaryOperator::Ge,
+            };
+            bin(o, l, r, DataTypeKind::Bool)
+        }
+        VExpr::Arith(op, l, r) => {
+            let o = match *op {
+                "add" => BinaryOperator::Plus,
+                "sub" => BinaryOperator::Minus,
+                "mul" => BinaryOperator::Multiply,
+                "div" => BinaryOperator::Divide,
+                _ => BinaryOperator::Modulo,
+            };
+            bin(o, l, r, DataTypeKind::BigInt)
+        }
+        VExpr::Like(neg, l, r) => bin(if *neg { BinaryOperator::NotLike } else { BinaryOperator::Like }, l, r, DataTypeKind::Bool),
+        VExpr::IsNull(neg, a) => BoundExpression::IsNull { expr: b(a), negated: *neg },
+        VExpr::Between(neg, a, lo, hi) => BoundExpression::Between { expr: b(a), low: b(lo), high: b(hi), negated: *neg },
+        VExpr::InList(neg, a, xs) => {
+            BoundExpression::InList { expr: b(a), list: xs.iter().map(|x| bexpr(x, schema)).collect(), negated: *neg }
+        }
+        VExpr::Other(_) => BoundExpression::Literal { value: DataType::Null },
+    }
+}
+
+fn unbexpr(e: &BoundExpression) -> VExpr {
+    let u = |x: &BoundExpression| Box::new(unbexpr(x));
+    match e {
+        BoundExpression::Literal { value } => VExpr::Lit(unlit(value)),
+        BoundExpression::ColumnBinding(c) => VExpr::Col(c.column_idx),
+        BoundExpression::UnaryOp { op, expr, .. } => match op {
+            UnaryOperator::Not => VExpr::Not(u(expr)),
+            UnaryOperator::Minus => VExpr::Neg(u(expr)),
+            UnaryOperator::Plus => VExpr::Pos(u(expr)),
+        },
+        BoundExpression::BinaryOp { left, op, right, .. } => match op {
+            BinaryOperator::And => VExpr::And(u(left), u(right)),
+            BinaryOperator::Or => VExpr::Or(u(left), u(right)),
+            BinaryOperator::Eq => VExpr::Cmp("eq", u(left), u(right)),
+            BinaryOperator::Neq => VExpr::Cmp("ne", u(left), u(right)),
+            BinaryOperator::Lt => VExpr::Cmp("lt", u(left), u(right)),
+            BinaryOperator::Le => VExpr::Cmp("le", u(left), u(right)),
+            BinaryOperator::Gt => VExpr::Cmp("gt", u(left), u(right)),
+            BinaryOperator::Ge => VExpr::Cmp("ge", u(left), u(right)),
+            BinaryOperator::Plus => VExpr::Arith("add", u(left), u(right)),
+            BinaryOperator::Minus => VExpr::Arith("sub", u(left), u(right)),
+            BinaryOperator::Multiply => VExpr::Arith("mul", u(left), u(right)),
+            BinaryOperator::Divide => VExpr::Arith("div", u(left), u(right)),
+            BinaryOperator::Modulo => VExpr::Arith("mod", u(left), u(right)),
+            BinaryOperator::Like => VExpr::Like(false, u(left), u(right)),
+            BinaryOperator::NotLike => VExpr::Like(true, u(left), u(right)),
+            other => VExpr::Other(format!("{:?}", other)),
+        },
+        BoundExpression::IsNull { expr, negated } => VExpr::IsNull(*negated, u(expr)),
+        BoundExpression::Between { expr, low, high, negated } => VExpr::Between(*negated, u(expr), u(low), u(high)),
+        BoundExpression::InList { expr, list, negated } => VExpr::InList(*negated, u(expr), list.iter().map(unbexpr).collect()),
+        other => VExpr::Other(format!("{:?}", std::mem::discriminant(other))),
+    }
+}
+
+fn join_type(k: &str) -> JoinType {
+    match k {
+        "inner" => JoinType::Inner,
+        "left" => JoinType::Left,
+        "right" => JoinType::Right,
+        "full" => JoinType::Full,
+        _ => JoinType::Cross,
+    }
+}
+
+fn join_name(k: JoinType) -> &'static str {
+    match k {
+        JoinType::Inner => "inner",
+        JoinType::Left => "left",
+        JoinType::Right => "right",
+        JoinType::Full => "full",
+        JoinType::Cross => "cross",
+    }
+}
+
+fn expr_kind(e: &VExpr, schema: &Schema) -> DataTypeKind {
+    match e {
+        VExpr::Col(i) => schema.column(*i).map(|c| c.datatype()).unwrap_or(DataTypeKind::Null),
+        VExpr::Lit(VLit::Text(_)) => DataTypeKind::Blob,
+        VExpr::Lit(VLit::Int(_)) | VExpr::Arith(..) | VExpr::Neg(_) | VExpr::Pos(_) => DataTypeKind::BigInt,
+        _ => DataTypeKind::Bool,
+    }
+}
+
+/// inserts the plan into the memo, bottom up; returns the group of its root and its output schema
+fn insert(memo: &mut Memo, tables: &[VTable], p: &VPlan) -> Option<(GroupId, Schema)> {
+    let (op, children, schema): (LogicalOperator, Vec<GroupId>, Schema) = match p {
+        VPlan::Scan(t) => {
+            let s = table_schema(*t, tables.get(*t)?);
+            (LogicalOperator::TableScan(TableScanOp::new(*t as ObjectId, format!("t{}", t), s.clone())), vec![], s)
+        }
+        VPlan::Filter(e, c) => {
+            let (g, s) = insert(memo, tables, c)?;
+            (LogicalOperator::Filter(FilterOp::new(bexpr(e, &s), s.clone())), vec![g], s)
+        }
+        VPlan::Project(items, c) => {
+            let (g, s) = insert(memo, tables, c)?;
+            let exprs: Vec<ProjectExpr> = items.iter().map(|e| ProjectExpr { expr: bexpr(e, &s), alias: None }).collect();
+            let out_cols: Vec<Column> =
+                items.iter().enumerate().map(|(i, e)| Column::new_with_defaults(expr_kind(e, &s), &format!("p{}", i))).collect();
+            let out = Schema::new_table_with_num_keys(out_cols, 0);
+            (LogicalOperator::Project(ProjectOp::new(exprs, s, out.clone())), vec![g], out)
+        }
+        VPlan::Join(k, on, l, r) => {
+            let (gl, sl) = insert(memo, tables, l)?;
+            let (gr, sr) = insert(memo, tables, r)?;
+            let j = JoinOp::new(join_type(k), None, sl, sr);
+            let out = j.output_schema.clone();
+            let cond = on.as_ref().map(|e| bexpr(e, &out));
+            let j = JoinOp::new(j.join_type, cond, j.left_schema, j.right_schema);
+            (LogicalOperator::Join(j), vec![gl, gr], out)
+        }
+        VPlan::IndexScan { .. } | VPlan::Other(_) => return None,
+    };
+    let expr = LogicalExpr::new(op, children).with_properties(LogicalProperties::new(schema.clone()));
+    Some((memo.insert_logical_expr(expr), schema))
+}
+
+fn bounds(bs: &Option<Vec<IndexRangeBound>>) -> Vec<VBound> {
+    bs.as_ref()
+        .map(|v| v.iter().map(|b| VBound { pos: b.col_idx, value: unlit(&b.value), inclusive: b.inclusive }).collect())
+        .unwrap_or_default()
+}
+
+/// a logical expression as a plain tree: its children are expanded through the first expression of their group
+fn extract(memo: &Memo, op: &LogicalOperator, children: &[GroupId], depth: usize) -> VPlan {
+    if depth > 64 {
+        return VPlan::Other("too deep".into());
+    }
+    let child = |i: usize| -> Box<VPlan> {
+        Box::new(match children.get(i).and_then(|g| memo.get_group(*g)).and_then(|g| g.logical_exprs.first()) {
+            Some(e) => extract(memo, &e.op, &e.children, depth + 1),
+            None => VPlan::Other("no child".into()),
+        })
+    };
+    match op {
+        LogicalOperator::TableScan(s) => VPlan::Scan(s.table_id as usize),
+        LogicalOperator::IndexScan(s) => {
+            let rel = s.index_id.saturating_sub(INDEX_ID_BASE) as usize;
+            VPlan::IndexScan {
+                table: s.table_id as usize,
+                index: rel % 16,
+                lo: bounds(&s.range_start),
+                hi: bounds(&s.range_end),
+                resid: s.residual_predicate.as_ref().map(unbexpr),
+            }
+        }
+        LogicalOperator::Filter(f) => VPlan::Filter(unbexpr(&f.predicate), child(0)),
+        LogicalOperator::Project(p) => VPlan::Project(p.expressions.iter().map(|e| unbexpr(&e.expr)).collect(), child(0)),
+        LogicalOperator::Join(j) => VPlan::Join(join_name(j.join_type), j.condition.as_ref().map(unbexpr), child(0), child(1)),
+        other => VPlan::Other(format!("{:?}", std::mem::discriminant(other))),
+    }
+}
+
+/// Every transformation rule applied to the root of `plan`: (rule name, alternatives).  A rule that does not match, or
+/// matches and produces nothing, has no alternatives.  Index-scan alternatives are ordered by index number.
+pub fn apply_rules(tables: &[VTable], plan: &VPlan) -> Result<Vec<(String, Vec<VPlan>)>, String> {
+    let mut memo = Memo::new();
+    let (root, _) = insert(&mut memo, tables, plan).ok_or_else(|| "plan cannot be inserted".to_string())?;
+    let expr = memo
+        .get_group(root)
+        .and_then(|g| g.logical_exprs.first())
+        .cloned()
+        .ok_or_else(|| "no root expression".to_string())?;
+    let mut out = Vec::new();
+    for rule in transformation_rules() {
+        let mut alts: Vec<VPlan> = Vec::new();
+        if rule.matches(&expr, &memo) {
+            let produced = rule.apply(&expr, &mut memo).map_err(|e| format!("{}: {}", rule.name(), e))?;
+            for e in &produced {
+                alts.push(extract(&memo, &e.op, &e.children, 0));
+            }
+        }
+        alts.sort_by_key(|p| match p {
+            VPlan::IndexScan { index, .. } => *index,
+            _ => 0,
+        });
+        out.push((rule.name().to_string(), alts));
+    }
+    Ok(out)
+}
